@@ -694,6 +694,7 @@ WINDOW_PROBES = [
     [('limit', 4, 1), ('page', 3, 2)], [('limit', 5, 1), ('limit', 5, 1), ('limit', 1, 1)], [('limit', 5, 1), ('limit', 2, 4), ('limit', 3, 1)],
     [('limit', 5, 1), ('limit', None, 6), ('slice', None, 2)], [('limit', 0, None)], [('slice', 2, 2)], [('page', 3, 0)], [('limit', None, 4)], [('slice', 3, None)],
     [('limit', None, 2), ('limit', None, 3)], [('limit', None, 2), ('page', 1, 4), ('page', 2, 1)], [('page', 2, 4), ('slice', 1, 2)], [('page', 1, 3), ('slice', 5, 7)], [('page', 2, 3), ('page', 3, 2)], [('limit', 20, 8), ('limit', 20, 8)],
+    [('limit', None, 0)], [('limit', None, 0), ('limit', None, 0)], [('limit', 3, 0)], [('page', 1, 3)], [('limit', None, 0), ('slice', 0, None)], [('limit', 4, 0), ('limit', None, 0)],
 ]
 
 
